@@ -264,6 +264,22 @@ pub fn subject<T>(f: impl FnOnce() -> T) -> Result<T, String> {
 /// Runs `f(shard, acc)` for every shard on `cfg.threads` workers.  Shards are handed out in
 /// increasing order; once an unattributed violation was found in shard s, shards > s are
 /// skipped (they cannot contain a smaller counterexample), shards < s still complete.
+/// `VERIF_SHARD_MOD=k/m`: explore only the shards whose index is k modulo m (used by the
+/// supervisor in main.rs to find the part of a run that kills the process).
+fn shard_mod() -> Option<(usize, usize)> {
+    static M: std::sync::OnceLock<Option<(usize, usize)>> = std::sync::OnceLock::new();
+    *M.get_or_init(|| {
+        let v = std::env::var("VERIF_SHARD_MOD").ok()?;
+        let (k, m) = v.split_once('/')?;
+        let (k, m) = (k.parse::<usize>().ok()?, m.parse::<usize>().ok()?);
+        if m == 0 {
+            None
+        } else {
+            Some((k % m, m))
+        }
+    })
+}
+
 pub fn explore<F>(cfg: &RunCfg, nshards: usize, f: F) -> Explored
 where
     F: Fn(usize, &mut Acc) + Sync,
@@ -287,6 +303,12 @@ where
                     }
                     if i > min_bad.load(Ordering::Relaxed) {
                         continue;
+                    }
+                    if let Some((k, m)) = shard_mod() {
+                        if i % m != k {
+                            done.fetch_add(1, Ordering::Relaxed);
+                            continue;
+                        }
                     }
                     if t0.elapsed().as_secs_f64() > cfg.wall_cap_s {
                         capped.store(1, Ordering::Relaxed);
@@ -510,6 +532,12 @@ pub fn conclude(cfg: &RunCfg, rep: CheckReport) -> i32 {
     coverage.insert("evaluations".into(), json!(evals));
     coverage.insert("distinct_nontrivial".into(), json!(nontriv));
     coverage.insert("rule".into(), json!(rep.rule));
+    if samples.is_empty() {
+        // a report that stopped at its first case (a violation before anything else ran)
+        if let Some((pi, v)) = &first_violation {
+            samples.push(json!({"part": rep.parts[*pi].name, "case": v.case}));
+        }
+    }
     coverage.insert("samples".into(), json!(samples));
     coverage.insert("exhaustive".into(), json!(exhaustive));
     coverage.insert("hook_callbacks_or_ops_processed".into(), json!(transitions));
